@@ -134,6 +134,59 @@ func (t *tr) expr(e ast.Expr) string {
 	return t.fail("cannot translate expression %s", exprText(e))
 }
 
+// errStmts translates the body of a function that returns `error` into a boolean: `return nil`
+// is true, every other return (errors.Errorf(...), a propagated err) is false. Two idioms are
+// understood: `err := recv.EnsureValid()` followed by `if err != nil { return err }` (the callee's
+// translation is called with `validCall`), and `x := app.LastConfig()` (skipped: the fields of x
+// are parameters).
+func (t *tr) errStmts(ss []ast.Stmt, validCall string) string {
+	if len(ss) == 0 {
+		return t.fail("function body falls off the end")
+	}
+	switch s := ss[0].(type) {
+	case *ast.ReturnStmt:
+		if len(s.Results) != 1 {
+			return t.fail("return with %d results", len(s.Results))
+		}
+		if id, ok := s.Results[0].(*ast.Ident); ok && id.Name == "nil" {
+			return "true"
+		}
+		return "false"
+	case *ast.AssignStmt:
+		if len(s.Lhs) == 1 && len(s.Rhs) == 1 && s.Tok == token.DEFINE {
+			if call, ok := s.Rhs[0].(*ast.CallExpr); ok {
+				if sel, ok := call.Fun.(*ast.SelectorExpr); ok {
+					switch sel.Sel.Name {
+					case "EnsureValid":
+						// must be followed by `if err != nil { return err }`
+						if len(ss) >= 2 {
+							if is, ok := ss[1].(*ast.IfStmt); ok && is.Else == nil && is.Init == nil {
+								if c, ok := is.Cond.(*ast.BinaryExpr); ok && c.Op == token.NEQ && exprText(c.X) == exprText(s.Lhs[0]) && exprText(c.Y) == "nil" {
+									return "if negb (" + validCall + ") then false\n  else (" + t.errStmts(ss[2:], validCall) + ")"
+								}
+							}
+						}
+						return t.fail("EnsureValid call not followed by the error propagation idiom")
+					case "LastConfig":
+						return t.errStmts(ss[1:], validCall)
+					}
+				}
+			}
+		}
+		return t.fail("unsupported assignment in an error-returning function")
+	case *ast.IfStmt:
+		if s.Init != nil || s.Else != nil {
+			return t.fail("unsupported if form")
+		}
+		return "if " + t.expr(s.Cond) + " then (" + t.errStmts(s.Body.List, validCall) + ")\n  else (" + t.errStmts(ss[1:], validCall) + ")"
+	case *ast.ExprStmt:
+		if _, isCall := s.X.(*ast.CallExpr); isCall {
+			return t.errStmts(ss[1:], validCall)
+		}
+	}
+	return t.fail("unsupported statement %T in an error-returning function", ss[0])
+}
+
 // stmts translates a statement list that ends in a return on every path.
 func (t *tr) stmts(ss []ast.Stmt) string {
 	if len(ss) == 0 {
@@ -378,6 +431,36 @@ func genAppConsts(repo string) (string, error) {
 		return "", fmt.Errorf("numRequiredTransitionValidators: %v", t.err)
 	}
 	fmt.Fprintf(&sb, "(* numRequiredTransitionValidators, statement by statement; len_keypers is an int, threshold a uint64 *)\nDefinition gen_num_required_transition (len_keypers threshold : Z) : Z :=\n  %s.\n\n", body)
+
+	// checkConfig (app.go) and BatchConfig.EnsureValid (shutterevents/batchconfig.go)
+	cc := findFunc(f, "checkConfig")
+	if cc == nil || len(cc.Type.Params.List) != 1 || len(cc.Type.Params.List[0].Names) != 1 {
+		return "", fmt.Errorf("checkConfig: unexpected signature")
+	}
+	fb, _, err := parseFile(repo, "keyper/shutterevents/batchconfig.go")
+	if err != nil {
+		return "", err
+	}
+	ev := findFunc(fb, "EnsureValid")
+	if ev == nil || ev.Recv == nil || len(ev.Recv.List) != 1 || len(ev.Recv.List[0].Names) != 1 {
+		return "", fmt.Errorf("EnsureValid: unexpected signature")
+	}
+	bcv := ev.Recv.List[0].Names[0].Name
+	te := &tr{rename: map[string]string{"len(" + bcv + ".Keypers)": "len_keypers", bcv + ".Threshold": "threshold"}}
+	evBody := te.errStmts(ev.Body.List, "")
+	if te.err != nil {
+		return "", fmt.Errorf("EnsureValid: %v", te.err)
+	}
+	fmt.Fprintf(&sb, "(* BatchConfig.EnsureValid as a boolean (nil = true); len_keypers is an int, threshold a uint64 *)\nDefinition gen_ensure_valid (len_keypers threshold : Z) : bool :=\n  %s.\n\n", evBody)
+	cv := cc.Type.Params.List[0].Names[0].Name
+	tc := &tr{rename: map[string]string{
+		cv + ".ActivationBlockNumber": "act", cv + ".KeyperConfigIndex": "idx",
+		"lastConfig.ActivationBlockNumber": "last_act", "lastConfig.KeyperConfigIndex": "last_idx"}}
+	ccBody := tc.errStmts(cc.Body.List, "gen_ensure_valid len_keypers threshold")
+	if tc.err != nil {
+		return "", fmt.Errorf("checkConfig: %v", tc.err)
+	}
+	fmt.Fprintf(&sb, "(* ShutterApp.checkConfig as a boolean; the last config's fields are parameters *)\nDefinition gen_check_config (len_keypers threshold act idx last_act last_idx : Z) : bool :=\n  %s.\n\n", ccBody)
 
 	// forks.go
 	f, _, err = parseFile(repo, "app/forks.go")
